@@ -51,6 +51,9 @@ type Ctx struct {
 	seen map[string]*Obligation
 	// anchor resolution is memoised: an unresolved anchor is reported once
 	anchorMemo map[string]*ssa.Function
+	hashMemo   *hashShape
+	csvMemo    *csvRoles
+	hashQuiet  *hashShape
 }
 
 func newCtx(p *Program, prop, tier string) *Ctx {
